@@ -443,7 +443,7 @@ coap_update_token(coap_pdu_t *pdu, size_t len, const uint8_t *data) {
 
   pdu->actual_token.length = len;
   pdu->actual_token.s = &pdu->token[bias];
-  pdu->e_token_length = (uint8_t)(len + bias);
+  pdu->e_token_length = (uint32_t)(len + bias);
   if (len) {
     switch (bias) {
     case 0:
